@@ -1,1 +1,2 @@
 import Proofs.C05
+import Proofs.C17
